@@ -57,12 +57,14 @@ def stripDesc : RT → RT
   | .described _ t => stripDesc t
   | t => t
 
-/-- `lookupOwn(mapping, d)`: own-property lookup with property-key coercion of `d` -/
+/-- `lookupOwn(mapping, d)`: own-property lookup; only string discriminator values select a variant -/
 def lookupMapping (mapping : List (String × RT)) (d : JsVal) : Option RT :=
-  let k := d.toPropertyKey
-  match mapping.find? (fun p => p.1 == k) with
-  | some p => some p.2
-  | none => none
+  match d with
+  | .str k =>
+    match mapping.find? (fun p => p.1 == k) with
+    | some p => some p.2
+    | none => none
+  | _ => none
 
 /-- ObjectRuntype.validate, index-signature part, for one extra key -/
 def indexedAccepts (vf : RT → JsVal → Res Bool) (indexed : List (RT × RT)) (input : JsVal) (k : String) : Res Bool :=
